@@ -163,6 +163,21 @@ func fillLine(zoom int, mp orb.MultiPolygon) string {
 }
 
 func (C16) Gen(r *core.Rng, tier string, emit func(string)) {
+	{
+		// region extracts through the real binary: every bbox-string case (the form only the command line
+		// parses) and one in three of the GeoJSON forms, within a budget
+		budget, inner := 16, emit
+		if tier == "thorough" {
+			budget = 200
+		}
+		emit = func(line string) {
+			inner(line)
+			if budget > 0 && strings.HasPrefix(line, "regbounds ") && (strings.HasPrefix(line, "regbounds 0 ") || lineHash(line)%3 == 0) {
+				budget--
+				inner("cli" + line)
+			}
+		}
+	}
 	nFill, nGen := 150, 300
 	if tier == "thorough" {
 		nFill, nGen = 5000, 10000
@@ -184,7 +199,26 @@ func (C16) Gen(r *core.Rng, tier string, emit func(string)) {
 		emit(fmt.Sprintf("genor %d %s", r.Intn(z+1), strings.Join(ids, " ")))
 	}
 	for i := 0; i < nFill/5; i++ {
-		emit("regbounds " + strconv.Itoa(r.Intn(5)) + " " + fmtMP(randRegion(r, 4)))
+		reg := randRegion(r, 4)
+		if r.Bool() {
+			// coordinates with seven decimals (the resolution of the header): every vertex is moved by a
+			// sub-microdegree amount that depends on its value only (shared vertices stay shared)
+			jit := func(v float64) float64 {
+				k := int64(math.Float64bits(v)>>7) % 1000000
+				if k < 0 {
+					k = -k
+				}
+				return math.Round((v+float64(k)/1e7)*1e7) / 1e7
+			}
+			for a := range reg {
+				for b := range reg[a] {
+					for c := range reg[a][b] {
+						reg[a][b][c] = orb.Point{jit(reg[a][b][c][0]), jit(reg[a][b][c][1])}
+					}
+				}
+			}
+		}
+		emit("regbounds " + strconv.Itoa(r.Intn(5)) + " " + fmtMP(reg))
 	}
 	// the consumer: real extracts of box regions from sources with leaf directories, run lengths and shared
 	// contents — what ends up in the archive is exactly the region's tile set restricted to the source
@@ -215,7 +249,8 @@ func (C16) Gen(r *core.Rng, tier string, emit func(string)) {
 }
 
 func (C16) RunGo(line string) string {
-	t := strings.Fields(line)
+	cliMode, t := splitCLI(strings.Fields(line))
+	_ = cliMode
 	switch t[0] {
 	case "extract", "relevant":
 		return C07{}.RunGo(line)
@@ -241,13 +276,13 @@ func (C16) RunGo(line string) string {
 		}
 		return strings.Join(out, " ")
 	case "regbounds":
-		return runRegBounds(t)
+		return runRegBounds(cliMode, t)
 	}
 	return "bad-case"
 }
 
 // a real Extract with the region given through one of the five input forms; reports the header bounds/center
-func runRegBounds(t []string) string {
+func runRegBounds(cli bool, t []string) string {
 	form, _ := strconv.Atoi(t[1])
 	mp, _, ok := parseMP(t[2:])
 	if !ok || len(mp) == 0 {
@@ -257,6 +292,14 @@ func runRegBounds(t []string) string {
 	ts := tileSet{entries: []pmtiles.EntryV3{{TileID: 0, Offset: 0, Length: 3, RunLength: 1}, {TileID: 1, Offset: 3, Length: 3, RunLength: 4}}, data: []byte("abcdef")}
 	h := baseHeader()
 	h.Clustered, h.MinZoom, h.MaxZoom = true, 0, 1
+	// what the source's header says about its extent is not the extract's business: the whole world, nothing,
+	// or a small box that does not meet the region
+	switch len(t) % 3 {
+	case 1:
+		h.MinLonE7, h.MinLatE7, h.MaxLonE7, h.MaxLatE7 = 0, 0, 0, 0
+	case 2:
+		h.MinLonE7, h.MinLatE7, h.MaxLonE7, h.MaxLatE7 = 1000000000, 100000000, 1010000000, 110000000
+	}
 	ba := assembleArchive(&archDir{entries: ts.entries, sub: make([]*archDir, 2)}, ts, pmtiles.Gzip, h, []byte("{}"))
 	src := scratchFile(".pmtiles")
 	os.WriteFile(src, ba.bytes, 0o644)
@@ -301,8 +344,24 @@ func runRegBounds(t []string) string {
 		os.WriteFile(regionFile, []byte(js), 0o644)
 		defer os.Remove(regionFile)
 	}
-	if err := pmtiles.Extract(discardLogger, "", src, -1, -1, regionFile, bbox, out, 1, 0, false); err != nil {
-		return "extract-error " + strings.ReplaceAll(trunc(err.Error(), 60), " ", "_")
+	var xerr error
+	if cli {
+		args := []string{"extract", src, out}
+		if bbox != "" {
+			args = append(args, "--bbox="+bbox)
+		}
+		if regionFile != "" {
+			args = append(args, "--region="+regionFile)
+		}
+		_, xerr = cliRun(args...)
+		if xerr == errNoCLI {
+			return "no-cli-binary"
+		}
+	} else {
+		xerr = pmtiles.Extract(discardLogger, "", src, -1, -1, regionFile, bbox, out, 1, 0, false)
+	}
+	if xerr != nil {
+		return "extract-error " + strings.ReplaceAll(trunc(xerr.Error(), 60), " ", "_")
 	}
 	ob, _ := os.ReadFile(out)
 	oh, err := pmtiles.DeserializeHeader(ob[:127])
@@ -319,7 +378,8 @@ func runRegBounds(t []string) string {
 }
 
 func (C16) NonTrivial(line string) bool {
-	t := strings.Fields(line)
+	cliMode, t := splitCLI(strings.Fields(line))
+	_ = cliMode
 	if t[0] == "fill" {
 		for i, x := range t {
 			if x == "B" && i+1 < len(t) {
@@ -332,7 +392,8 @@ func (C16) NonTrivial(line string) bool {
 }
 
 func (C16) Branch(line, goOut string) string {
-	t := strings.Fields(line)
+	cliMode, t := splitCLI(strings.Fields(line))
+	_ = cliMode
 	if t[0] == "extract" || t[0] == "relevant" {
 		return t[0] + " " + strings.SplitN(goOut, " ", 2)[0]
 	}
@@ -388,7 +449,8 @@ func distToRings(px, py float64, rings [][][2]float64) float64 {
 }
 
 func (C16) Oracle(line, goOut string) string {
-	t := strings.Fields(line)
+	cliMode, t := splitCLI(strings.Fields(line))
+	_ = cliMode
 	if strings.HasPrefix(goOut, "panic") {
 		return goOut
 	}
